@@ -123,6 +123,10 @@ func h1OneRun(env *Env, c *H1Cfg, st *h1State, runIdx int) {
 	}
 	rec := NewRecorder(env.Sim)
 	rec.SlowNs = c.SlowOutputNs
+	if c.OutputFailAtNs > 0 {
+		rec.FailAtNs = env.Sim.Now() + c.OutputFailAtNs
+		env.Hit("fault.terminal_write_errors_armed")
+	}
 	hr := &h1Run{GT: g, Rec: rec, RunIdx: runIdx}
 	st.Runs = append(st.Runs, hr)
 	rt := &scenRT{env: env, cfg: c, g: g, st: st}
